@@ -253,7 +253,7 @@ def litFrag (strParen : Bool := false) : Lit → Frag
   | .estr s => W ("\"" ++ s ++ "\"")
   | .bin s => W ("%" ++ (if ExpPrec.binaryPrintedFrom = ExpPrec.binaryStoredIn then s else "(null)"))
   | .ltrue => W "TRUE" | .lfalse => W "FALSE" | .lunknown => W "UNKNOWN"
-  | .pi => W "PI" | .e => W "E" | .infinity => W "?" | .self => W "SELF"
+  | .pi => W ExpPrec.piText | .e => W ExpPrec.eText | .infinity => W "?" | .self => W "SELF"
 
 /-- does this element carry the `repeat` flag although it is not a count -/
 def sharedRep (sh : Shared) : Expr → Bool
